@@ -14,6 +14,47 @@ HERE = os.path.dirname(os.path.abspath(__file__))
 sys.path.insert(0, HERE)
 
 
+def last_resort(run, pid, seed):
+    from pyvc.report import native
+    S = {'seed': seed}
+    LAST = {'C01': [dict(S, kind='kd_buf_search')], 'C11': [dict(S, kind='flags_search')],
+            'C02': [dict(S, kind='v2_search', budget=300, known=['first-record-leading-zero'])],
+            'C03': [dict(S, kind='v3_blocks_search', budget=300)],
+            'C04': [dict(S, kind='pairing_search', budget=4000, depth=4)],
+            'C05': [dict(S, kind='interleaving_search', budget=300), dict(S, kind='pairing_search', budget=4000, depth=4)],
+            'C06': [dict(S, kind='truncation_search', budget=40), {'kind': 'seek_search'}],
+            'C08': [dict(S, kind='lookup_search', budget=500)],
+            'C12': [{'kind': 'filters_search'}], 'C13': [{'kind': 'traces_filters_search'}, {'kind': 'filters_search'}],
+            'C14': [dict(S, kind='format_search', budget=300)],
+            'C15': [dict(S, kind='callstack_search', budget=300)],
+            'C16': [dict(S, kind='log_search', budget=300)],
+            'C19': [dict(S, kind='codes_search', budget=400), {'kind': 'supplied_table_case'}]}
+    und = [u[0] for u in run.undecided]
+    if pid in ('C07', 'C20', 'C15'):
+        comp = [n for n in ('PERF_Event', 'MACH_vmfault', 'DBG_DYLD_TIMING_LAUNCH_EXECUTABLE') if any(n in u for u in und) or run.engine_errors]
+        LAST[pid] = LAST.get(pid, []) + [{'kind': 'composite_search', 'name': n, 'budget': 1500, 'seed': seed} for n in comp]
+    names = sorted(set(u.split('/')[1].split('.', 1)[-1] for u in und if u.count('/') >= 2 and u.split('/')[1].split('.', 1)[0] in
+                       ('bsd', 'mach', 'trace', 'perf', 'dyld', 'turnstile', 'corestorage', 'network', 'vfs', 'fsystem')))
+    if pid == 'C09':
+        LAST['C09'] = [{'kind': 'arg_fidelity_search', 'decoders': names}]
+    if pid in ('C07', 'C10', 'C11', 'C17', 'C18', 'C20') and names:
+        LAST[pid] = LAST.get(pid, []) + [{'kind': 'decoder_property_search', 'property': pid, 'decoders': names[:80], 'seed': seed}]
+    out = {}
+    for rq in LAST.get(pid, []) + [{'kind': 'api_history_case'}]:
+        out = native(rq, timeout=900)
+        run.bounded.append({'what': 'native %s after an undecided run (refute mode only)' % rq['kind'], 'found': bool(out.get('violates'))})
+        if out.get('violates'):
+            f = out.get('found') if isinstance(out.get('found'), dict) else out
+            out = dict(f, violates=True, request=f.get('request', rq))
+            break
+    if out.get('violates'):
+        ob = '%s/bounded/refute-search' % pid
+        run.add(ob, 'refuted', 'native bounded search', 0, None, out.get('what', '')[:300])
+        run.violation(ob, {'request': out.get('request', {'kind': 'api_history_case'}), 'native': out,
+                           'solver_output': 'undecided obligations: %s; engine errors: %s' % ([u[0] for u in run.undecided][:10], run.engine_errors[:2])},
+                      True, what=out.get('what', ''))
+
+
 def main():
     ap = argparse.ArgumentParser()
     ap.add_argument('pid')
@@ -40,35 +81,12 @@ def main():
         common.run_generic(run, tier)
     except Exception:
         run.engine_error('generic frame obligations crashed: ' + traceback.format_exc()[-1200:].replace('\n', ' | '))
-    if run.undecided and not run.violations and not run.engine_errors:
-        # last resort before reporting "undecided": the generic native history search (bounded refute mode)
+    if (run.undecided or run.engine_errors) and not any(v[2] for v in run.violations):
+        # last resort before reporting "undecided" (or an engine failure): the property's native searches and the generic
+        # history search (bounded refute mode).  A failing input found here is replayed on the real code, so it stands
+        # whatever stopped the deductive part.
         try:
-            from pyvc.report import native
-            LAST = {'C01': [{'kind': 'kd_buf_search', 'seed': seed}], 'C11': [{'kind': 'flags_search', 'seed': seed}],
-                    'C02': [{'kind': 'v2_search', 'seed': seed, 'budget': 300, 'known': ['first-record-leading-zero']}],
-                    'C03': [{'kind': 'v3_blocks_search', 'seed': seed, 'budget': 300}], 'C19': [{'kind': 'codes_search', 'seed': seed, 'budget': 400},
-                                                                                              {'kind': 'supplied_table_case'}],
-                    'C12': [{'kind': 'filters_search'}], 'C05': [{'kind': 'interleaving_search', 'seed': seed, 'budget': 300}]}
-            und = [u[0] for u in run.undecided]
-            if pid in ('C07', 'C20', 'C15'):
-                comp = [n for n in ('PERF_Event', 'MACH_vmfault', 'DBG_DYLD_TIMING_LAUNCH_EXECUTABLE') if any(n in u for u in und)]
-                LAST[pid] = [{'kind': 'composite_search', 'name': n, 'budget': 1500, 'seed': seed} for n in comp]
-            if pid == 'C09':
-                names = sorted(set(u.split('/')[1].split('.', 1)[-1] for u in und if u.count('/') >= 2))
-                LAST['C09'] = [{'kind': 'arg_fidelity_search', 'decoders': names}]
-            out = {}
-            for rq in LAST.get(pid, []) + [{'kind': 'api_history_case'}]:
-                out = native(rq, timeout=900)
-                run.bounded.append({'what': 'native %s after an undecided run (refute mode only)' % rq['kind'], 'found': bool(out.get('violates'))})
-                if out.get('violates'):
-                    f = out.get('found') if isinstance(out.get('found'), dict) else out
-                    out = dict(f, violates=True, request=f.get('request', rq))
-                    break
-            if out.get('violates'):
-                ob = '%s/bounded/refute-search' % pid
-                run.add(ob, 'refuted', 'native bounded search', 0, None, out.get('what', '')[:300])
-                run.violation(ob, {'request': out.get('request', {'kind': 'api_history_case'}), 'native': out,
-                                   'solver_output': 'undecided obligations: %s' % [u[0] for u in run.undecided][:10]}, True, what=out.get('what', ''))
+            last_resort(run, pid, seed)
         except Exception:
             pass
     code = run.finish()
